@@ -320,6 +320,29 @@ def oracle(spec, k, r):
 
 
 def _run(ctx, compare=True):
+    """thorough tier: the whole sweep again under two more iteration orders of the server's task sets"""
+    res = None
+    old = os.environ.get("VERIF_TASK_SALT")
+    try:
+        for salt in ((0, 1, 5) if ctx.thorough() else (0,)):
+            os.environ["VERIF_TASK_SALT"] = str(salt)
+            r = _run_once(ctx, compare and salt == 0)
+            for f in r.oracle_failures:
+                if isinstance(f.get("input"), dict):
+                    f["input"]["task_salt"] = salt
+            if res is None:
+                res = r
+            else:
+                res.merge(r)
+    finally:
+        if old is None:
+            os.environ.pop("VERIF_TASK_SALT", None)
+        else:
+            os.environ["VERIF_TASK_SALT"] = old
+    return res
+
+
+def _run_once(ctx, compare=True):
     res = Result()
     thorough = ctx.thorough()
     specs = corpus(thorough)
@@ -393,6 +416,8 @@ def _one(inp):
 
 def replay(ctx, doc):
     inp = doc["failure"]["input"]
+    if "task_salt" in inp:
+        os.environ["VERIF_TASK_SALT"] = str(inp["task_salt"])
     spec, r = _one(inp)
     print({k: r.get(k) for k in ("transcript", "after_abor", "pos", "alive", "follow")})
     f = oracle(spec, inp["abor_at_iteration"], r)
